@@ -455,7 +455,7 @@ func (cs *ContractSet) loadFile(path, pkgPath string) error {
 				a := strings.Index(rest, "`")
 				// closing backquote: the last backquote followed by optional #k and a keyword
 				b := -1
-				for _, kw := range []string{" requires ", " ghost ", " assume "} {
+				for _, kw := range []string{" requires ", " ghost ", " assume ", " assumenopanic "} {
 					if k := strings.LastIndex(rest, "`"+kw); k > b {
 						b = k
 					}
@@ -508,6 +508,14 @@ func (cs *ContractSet) loadFile(path, pkgPath string) error {
 						return err
 					}
 					cur.At[text] = append(cur.At[text], AtClause{Kind: "ghost", Name: strings.TrimSpace(n), Expr: x, Src: body})
+				case "assumenopanic":
+					// the call is assumed not to panic at this site (user code behind an interface on an error path):
+					// a listed assumption, reported with the evidence
+					if strings.TrimSpace(body) == "" {
+						return fail(i, "assumenopanic needs a reason")
+					}
+					cur.At[text] = append(cur.At[text], AtClause{Kind: "assumenopanic", Src: body})
+					cs.Assumes = append(cs.Assumes, fmt.Sprintf("%s: at `%s` assumenopanic %s", cur.Key, text, body))
 				default:
 					return fail(i, "bad at clause keyword %q", kw)
 				}
